@@ -280,6 +280,21 @@ def explore_shard(acc, shard):
             acc.count("transitions")
             rec([first])
             acc.sample(layer, {"grid": grid, "first_event": evs[first], "example": TC.fmt_tl(TC.concretize(grid, (evs[first],), fam))})
+    elif kind == "special":
+        _, idx, thorough = shard
+        label, tl, beats = TC.special_timelines(thorough)[idx]
+        layer = "X special timelines"
+        case = {"kind": "timeline", "timeline": TC.fmt_tl(tl), "beats": [str(b) for b in beats], "extra_sets": [["3"]], "label": label}
+        core.guard(acc, case)
+        fails = check_timeline(tl, beats, [[Fraction(3)]])
+        acc.count("states")
+        acc.count("transitions")
+        acc.count("evaluations", NQ[0])
+        acc.count("nontrivial")
+        acc.outcome("special timeline (crowded warp / long warp / far out / many digits)")
+        for f in fails:
+            acc.violation(f["clause"], case, f["expected"], f["observed"], signature=(f["clause"], "special"))
+        acc.sample(layer, {"label": label, "probe_beats": len(beats)})
     elif kind == "corpus":
         _, idx = shard
         name, tl, td = TC.corpus_timelines()[idx]
@@ -323,6 +338,7 @@ def explore(run):
     for i in range(4):
         shards.append(("sets", "coarse", "dyadic", i, 4 if run.thorough() else 2, run.seed, True))
     shards += [("corpus", i) for i in range(len(TC.corpus_timelines()))]
+    shards += [("special", i, run.thorough()) for i in range(len(TC.special_timelines(run.thorough())))]
     k = run.seed % len(shards)
     shards = shards[k:] + shards[:k]
     run.merge(core.pmap(explore_shard, shards, run.seed))
@@ -333,12 +349,14 @@ def explore(run):
         + f"; x offsets {[str(o) for o in OFFSETS]}; each state: beat_at under all 7 tags + default at every engine time_at(beat, tag) value of ~40 probe beats, 3-5 times inside every pause, mid-points between event times, before and after; "
         "independence transitions: 1..3 redundant BPM changes on the ticks before the first event (shifted grid), at free grid points and after the last event (other grids). "
         "Non-trivial = at least two events."
+        + " X: the special timelines of C11 (crowded warps, long warps, far-out events and queries, extreme and many-digit BPMs, hour offsets)."
     )
     run.assumptions = [
         "mc/models/timeline.py: B_default(t) = sup{b: arrive(b) <= t}, B_warp(t) = inf{b: depart(b) >= t}",
         "boundary clauses are only demanded where the engine's float time equals the exact rational time (dyadic coarse grid); elsewhere the half-tick clause applies",
         "delay-only beats inside a warp are covered by the pause clause, not the round-trip clause (DESIGN 5, C12)",
     ]
+    core.require(acc.outcomes["special timeline (crowded warp / long warp / far out / many digits)"] > 0, "no special timeline")
     core.require(acc.outcomes["warp shorter than half a tick"] > 0, "no tiny warp")
     core.require(acc.outcomes["pause together with a warp"] > 0, "no pause+warp timeline")
     core.require(acc.outcomes["stop and delay"] > 0, "no stop+delay timeline")
